@@ -411,9 +411,9 @@ def discharge(c, w, timeout_ms, cc_every=0):
 
 
 # ----------------------------------------------------------------------------- replay
-def concrete_run(mod, cfg, inputs):
+def concrete_run(mod, cfg, inputs, int_arrays=False):
     """run the harness on the unstubbed float64 code; returns (failed obligation keys, notes)"""
-    w = World(False, values=_parse_inputs(inputs) if inputs else {})
+    w = World(False, values=_parse_inputs(inputs) if inputs else {}, int_arrays=int_arrays)
     failed = []
     try:
         with np.errstate(all="ignore"):
@@ -591,6 +591,14 @@ def process_config(args):
             res["shadow"] = dict(failed=failed, note=note)
         except Exception as e:
             res["shadow"] = dict(failed=None, note="shadow crashed: " + repr(e))
+    # ---- dtype shadow (opt-in per check, DTYPE_SHADOW): the same harness on integer-dtype arrays
+    ds = getattr(mod, "DTYPE_SHADOW", None)
+    if opts.get("shadow") and ds and ds(cfg) and not res["violations"] and not res["error"] and not res["inconclusive"] and not (res["shadow"] or {}).get("failed"):
+        try:
+            failed, note = concrete_run(mod, cfg, None, int_arrays=True)
+        except Exception as e:
+            failed, note = None, "dtype shadow crashed: " + repr(e)
+        res["dtype_shadow"] = dict(failed=failed, note=note)
     res["wall"] = time.time() - t_start
     res["cfg"] = cfg
     if _STOP is not None:
@@ -723,6 +731,7 @@ def report(mod, prop, tier, seed, results, wall, verbose=False):
     inconclusive, errors, unknowns = [], [], []
     new_violations, known_hits, nonrepro = [], {}, []
     shadow_runs = shadow_bad = 0
+    dtype_shadow_runs = 0
     per_h = {}
     for r in results:
         for k in ("paths", "infeasible", "forks", "obligations", "trivial", "by_simplify", "by_solver", "nl", "queries", "t_solver", "structural", "solver_paths", "by_som", "cc_agree", "cc_unknown"):
@@ -758,6 +767,12 @@ def report(mod, prop, tier, seed, results, wall, verbose=False):
             elif r["shadow"]["note"]:
                 shadow_bad += 1
                 errors.append((r["key"], f"shadow run could not be evaluated: {r['shadow']}"))
+        if r.get("dtype_shadow") is not None:
+            dtype_shadow_runs += 1
+            if r["dtype_shadow"]["failed"]:
+                k0, i0 = r["dtype_shadow"]["failed"][0]
+                r["violations"].append(dict(ob=k0, info=f"(dtype shadow: integer-dtype arrays, default whole-number inputs; outside the exact-real claim) {i0 or ''}", inputs={"__int_arrays__": True},
+                                            replay_failed=r["dtype_shadow"]["failed"], reproduced=True))
         for v in r["violations"]:
             rec = dict(property=prop, harness=r["h"], config=r["key"], obligation=v["ob"], info=v["info"], inputs=v["inputs"],
                        replay_failed=v.get("replay_failed"))
@@ -852,7 +867,7 @@ def report(mod, prop, tier, seed, results, wall, verbose=False):
             stubs=sorted(stubs),
             functions_executed=sorted(funcs),
             solver=dict(name="z3", version=z3.get_version_string(), seconds_in_check=round(agg["t_solver"], 2), queries=agg["queries"]),
-            shadow_runs=shadow_runs, shadow_disagreements=shadow_bad,
+            shadow_runs=shadow_runs, shadow_disagreements=shadow_bad, dtype_shadow_runs=dtype_shadow_runs,
             second_solver=dict(name="cvc5 (python wheel)", queries_rechecked=agg["cc_agree"] + agg["cc_unknown"], agree_unsat=agg["cc_agree"], cvc5_unknown_or_timeout=agg["cc_unknown"],
                                rule="every k-th query that z3 answered unsat is exported with Solver.to_smt2() and re-decided; a cvc5 'sat' is a harness error"),
             samples=samples,
@@ -891,7 +906,8 @@ def do_replay(mod, prop, path):
     if cfg is None:
         print("cannot find configuration", rec["config"])
         return 3
-    failed, note = concrete_run(mod, cfg, rec["inputs"])
+    ia = bool(rec["inputs"].pop("__int_arrays__", False)) if isinstance(rec.get("inputs"), dict) else False
+    failed, note = concrete_run(mod, cfg, rec["inputs"], int_arrays=ia)
     print(f"replay of {rec['config']} with inputs {rec['inputs']}")
     if failed:
         for k, info in failed[:10]:
